@@ -69,6 +69,9 @@ def selftest_property(ctx, prop: str, ss: SourceSet):
         ms = apply(ss, file, old, new)
         if ms is None:
             skipped += 1
+            ctx.notes.append(f"benign variant {bid} no longer applies")
+            if __import__("os").environ.get("VERIF_VERBOSE"):
+                print("SKIPPED benign", bid)
             continue
         res = verdicts(prop, ms)
         nv = [r for r in res if r.verdict == report.VIOLATION and r.key() not in base_viol and r.rule[:3] == prop]
